@@ -157,6 +157,18 @@ func (g *Gen) Block(prev *lib.AbsState, num uint64, version string) *lib.BlockSp
 			g.cairo0[c] = def
 		}
 	}
+	// one address in several sections: a contract deployed by the block is also given another
+	// class by the same block (State.Update applies deployments first, then replacements)
+	if len(diff.DeployedContracts) > 0 && r.Chance(1, 4) {
+		var as []felt.Felt
+		for a := range diff.DeployedContracts {
+			as = append(as, a)
+		}
+		sort.Slice(as, func(i, j int) bool { return as[i].Cmp(&as[j]) < 0 })
+		a := lib.Pick(r, as)
+		ch := g.G.ClassHash(r.Intn(4))
+		diff.ReplacedClasses[a] = &ch
+	}
 	if g.BiasSys && r.Chance(1, 2) {
 		// extra system-contract traffic over a tiny slot/value space: first touch with zero,
 		// emptying, refilling
@@ -214,18 +226,44 @@ func (g *Gen) GenFork(newState bool, p forkParams) *Scenario {
 		states = append(states, st)
 		vers = append(vers, v)
 	}
+	reverted := map[int][]*lib.BlockSpec{}
+	chainSpecs := append([]*lib.BlockSpec{}, sc.Main...)
 	for ri, k := range p.Rounds {
 		if k > len(states)-1 {
 			k = len(states) - 1
 		}
+		reverted[ri] = append([]*lib.BlockSpec{}, chainSpecs[len(chainSpecs)-k:]...)
+		chainSpecs = chainSpecs[:len(chainSpecs)-k]
 		states = states[:len(states)-k]
 		vers = vers[:len(vers)-k]
 		rd := Round{Revert: k}
+		// transactions of the reverted blocks: a real reorg re-includes some of them in the new fork
+		// (same hash, same L1 message) at another index or height
+		var pool []int
+		var poolTx []core.Transaction
+		var poolRc []*core.TransactionReceipt
+		for _, old := range reverted[ri] {
+			for i := range old.Txs {
+				pool = append(pool, len(poolTx))
+				poolTx = append(poolTx, old.Txs[i])
+				poolRc = append(poolRc, old.Rcs[i])
+			}
+		}
 		for j := 0; j < p.M[ri]; j++ {
 			num := uint64(len(states) - 1)
 			v := g.nextVersion(vers[len(vers)-1])
 			spec := g.Block(states[len(states)-1], num, v)
+			for len(pool) > 0 && g.R.Chance(1, 2) {
+				i := g.R.Intn(len(pool))
+				idx := pool[i]
+				pool = append(pool[:i], pool[i+1:]...)
+				at := g.R.Intn(len(spec.Txs) + 1)
+				spec.Txs = append(spec.Txs[:at], append([]core.Transaction{poolTx[idx]}, spec.Txs[at:]...)...)
+				spec.Rcs = append(spec.Rcs[:at], append([]*core.TransactionReceipt{poolRc[idx]}, spec.Rcs[at:]...)...)
+				spec.NoTxs = false
+			}
 			rd.Fork = append(rd.Fork, spec)
+			chainSpecs = append(chainSpecs, spec)
 			st := states[len(states)-1].Clone()
 			st.Apply(num, spec.Diff, spec.Classes)
 			states = append(states, st)
